@@ -651,7 +651,7 @@ Proof.
         pose proof (blob_updated_ok fixed b (S b) [] (NoDup_nil _) (fun _ H => match H with end)
                       (fun _ _ H => match H with end) (Hsmall b)
                       (Hnorem [] (fun j _ _ => ltac:(simpl; destruct (Nat.eqb k j); reflexivity)))) as [U1 [U2 U3]].
-        cbv zeta in U1, U2, U3. simpl blob_view. cbn [h_st h_calls].
+        cbv zeta in U1, U2, U3. change (blob_view nk (b, BSingle k CEmpty)) with [(bkey b k, SGone)]. cbn [h_st h_calls].
         splits; [| |exact A3|exact A4|exact A5].
         -- apply step_ok_iff; cbn [t_obs t_calls]. splits.
            ++ constructor; [intros []|constructor].
@@ -684,7 +684,7 @@ Proof.
         { right. apply filter_nil. intros j Hj. apply andb_false_iff. simpl.
           destruct (Nat.eqb j k) eqn:E; [right; reflexivity | left].
           apply Nat.eqb_neq in E. rewrite (Hothers j E). reflexivity. }
-        simpl blob_view. cbn [h_st h_calls].
+        change (blob_view nk (b, BSingle k (CValid c))) with [(bkey b k, SNew c)]. cbn [h_st h_calls].
         assert (Hlk : forall j, lookup_cid j [(k, c)] = if Nat.eqb k j then Some c else None)
           by (intro j; reflexivity).
         splits.
@@ -724,7 +724,7 @@ Proof.
         { apply filter_nil. intros j Hj. apply andb_false_iff. simpl.
           destruct (Nat.eqb j k) eqn:E; [right; reflexivity | left].
           apply Nat.eqb_neq in E. rewrite (Hothers j E). reflexivity. }
-        cbv zeta in R1, R2. simpl blob_view. cbn [h_st h_calls]. rewrite R1.
+        cbv zeta in R1, R2. change (blob_view nk (b, BSingle k (CValid c))) with [(bkey b k, SNew c)]. cbn [h_st h_calls]. rewrite R1.
         assert (Hlv : latest_valid acc (SNew c :: m (bkey b k)) = latest_valid acc (m (bkey b k)))
           by (simpl; rewrite Hc; reflexivity).
         splits.
@@ -758,4 +758,125 @@ Proof.
     + apply (Hnop false); [intro; reflexivity | intros; reflexivity | left; reflexivity].
 Qed.
 
+
+Definition blob_trace_from (fixed : bool) (S : bstates) (h : list blob_event) : list tstep :=
+  mk_trace (blob_views nk h) (map h_calls (snd (blob_run_from O fixed nk S h))).
+
+Lemma blob_trace_from_cons fixed S e r :
+  blob_trace_from fixed S (e :: r) =
+  {| t_obs := blob_view nk e; t_calls := h_calls (blob_watch O fixed nk (fst e) (S (fst e)) (snd e)) |}
+    :: blob_trace_from fixed (bst_set S (fst e) (h_st (blob_watch O fixed nk (fst e) (S (fst e)) (snd e)))) r.
+Proof. reflexivity. Qed.
+
+Lemma blob_trace_ok_from fixed md : forall h S m v,
+  inv2 S m -> small S -> single_inv md S -> (fixed = true \/ vinv v S) ->
+  forallb (conforms md) h = true ->
+  fixed = true \/ blob_guard_F1_from nk v h = false ->
+  blob_guard_F5 acc h = false -> blob_guard_F6 h = false ->
+  trace_ok_from acc m (blob_trace_from fixed S h) = true /\
+  inv2 (fst (blob_run_from O fixed nk S h)) (fold_left seen_step (blob_trace_from fixed S h) m).
+Proof.
+  induction h as [|e r IH]; intros S m v Hinv Hsmall Hsingle Hv Hconf Hg1 Hg5 Hg6.
+  - split; [reflexivity | exact Hinv].
+  - rewrite blob_trace_from_cons. simpl trace_ok_from. simpl fold_left.
+    simpl in Hconf. apply andb_true_iff in Hconf as [Hc1 Hc2].
+    unfold blob_guard_F5 in Hg5. simpl in Hg5. apply orb_false_iff in Hg5 as [Hg5a Hg5b].
+    unfold blob_guard_F6 in Hg6. simpl in Hg6. apply orb_false_iff in Hg6 as [Hg6a Hg6b].
+    assert (Hg1a : fixed = true \/ existsb (fun k => v (fst e) k && gone_in k (snd e)) (seq 0 nk) = false).
+    { destruct Hg1 as [Hf|Hg1]; [left; exact Hf | right]. simpl in Hg1. apply orb_false_iff in Hg1. tauto. }
+    assert (Hg1b : fixed = true \/ blob_guard_F1_from nk (mk_step v e) r = false).
+    { destruct Hg1 as [Hf|Hg1]; [left; exact Hf | right]. simpl in Hg1. apply orb_false_iff in Hg1. tauto. }
+    destruct (blob_event_ok fixed md S m v e Hinv Hsmall Hsingle Hv Hc1 Hg1a Hg5a Hg6a) as [E1 [E2 [E3 [E4 E5]]]].
+    cbv zeta in E1, E2, E3, E4, E5. rewrite E1. simpl.
+    change (fst (blob_run_from O fixed nk S (e :: r)))
+      with (fst (blob_run_from O fixed nk (bst_set S (fst e) (h_st (blob_watch O fixed nk (fst e) (S (fst e)) (snd e)))) r)).
+    apply (IH _ _ (mk_step v e)); assumption.
+Qed.
+
+Definition blob_trace (fixed : bool) (h : list blob_event) : list tstep := blob_trace_from fixed bst_empty h.
+
+(** T_main (cloud blob): every history of polls that conforms to the endpoints'
+    configuration, outside the guards of the open findings, yields a right trace *)
+Theorem blob_trace_ok fixed md h :
+  forallb (conforms md) h = true ->
+  fixed = true \/ blob_guard_F1 nk h = false ->
+  blob_guard_F5 acc h = false -> blob_guard_F6 h = false ->
+  trace_ok acc (blob_trace fixed h) = true.
+Proof.
+  intros Hc H1 H5 H6.
+  apply (blob_trace_ok_from fixed md h bst_empty seen_empty (fun _ _ => false)); try assumption.
+  - intros b k. reflexivity.
+  - intros b k _. reflexivity.
+  - intros b k j _ _. reflexivity.
+  - right. intros b k H. exfalso. apply H. reflexivity.
+Qed.
+
+Theorem blob_known_latest_valid fixed md h b k :
+  forallb (conforms md) h = true ->
+  fixed = true \/ blob_guard_F1 nk h = false ->
+  blob_guard_F5 acc h = false -> blob_guard_F6 h = false ->
+  fst (blob_run O fixed nk h) b k = latest_valid acc (seen_of (blob_trace fixed h) (bkey b k)).
+Proof.
+  intros Hc H1 H5 H6.
+  apply (blob_trace_ok_from fixed md h bst_empty seen_empty (fun _ _ => false)); try assumption.
+  - intros b' k'. reflexivity.
+  - intros b' k' _. reflexivity.
+  - intros b' k' j _ _. reflexivity.
+  - right. intros b' k' H. exfalso. apply H. reflexivity.
+Qed.
+
 End Blob.
+
+(** the findings' witnesses *)
+Definition bh_F1 : list blob_event :=
+  [(0, BList [(0, CValid 1); (1, CValid 2)]); (0, BList [(0, CValid 1)])].
+
+Theorem blob_F1_refuted :
+  exists h, blob_guard_F1 2 h = true /\ blob_guard_F5 (accepts O_all) h = false /\ blob_guard_F6 h = false /\
+            forallb (conforms 2 (fun _ => None)) h = true /\
+            trace_ok (accepts O_all) (blob_trace O_all 2 false h) <> true /\
+            trace_ok (accepts O_all) (blob_trace O_all 2 true h) = true /\
+            active_of (blob_trace O_all 2 false h) (bkey 0 1) = Some 2 /\
+            fst (blob_run O_all false 2 h) 0 1 = None.
+Proof. exists bh_F1. vm_compute. splits; try reflexivity. discriminate. Qed.
+
+Definition bh_F5 : list blob_event :=
+  [(0, BList [(0, CValid 1); (1, CValid 2); (2, CValid 3)]); (0, BList [(0, CInvalid); (1, CValid 4)])].
+
+Theorem blob_F5_refuted :
+  exists h, blob_guard_F5 (accepts O_all) h = true /\ blob_guard_F6 h = false /\
+            forallb (conforms 3 (fun _ => None)) h = true /\
+            trace_ok (accepts O_all) (blob_trace O_all 3 true h) <> true /\
+            active_of (blob_trace O_all 3 true h) (bkey 0 1) = Some 2 /\
+            active_of (blob_trace O_all 3 true h) (bkey 0 2) = Some 3.
+Proof. exists bh_F5. vm_compute. splits; try reflexivity. discriminate. Qed.
+
+Definition bh_F6 : list blob_event := [(0, BSingle 0 (CValid 1)); (0, BSingle 0 CAbsent)].
+
+Theorem blob_F6_refuted :
+  exists h, blob_guard_F6 h = true /\ blob_guard_F5 (accepts O_all) h = false /\
+            forallb (conforms 1 (fun _ => Some 0)) h = true /\
+            trace_ok (accepts O_all) (blob_trace O_all 1 true h) <> true /\
+            active_of (blob_trace O_all 1 true h) (bkey 0 0) = Some 1.
+Proof. exists bh_F6. vm_compute. splits; try reflexivity. discriminate. Qed.
+
+Definition bh_nonvacuous : list blob_event :=
+  [(0, BList [(0, CValid 1); (1, CValid 2)]); (0, BList [(0, CValid 1); (1, CValid 4); (2, CValid 2)]);
+   (0, BList [(0, CEmpty); (1, CValid 4)]); (0, BFail BInternal); (0, BFail BComm); (0, BList [(1, CValid 4)]);
+   (1, BSingle 0 (CValid 3)); (1, BSingle 0 (CValid 5)); (1, BSingle 0 CInvalid); (1, BSingle 0 CEmpty)].
+
+Example blob_nonvacuous :
+  forallb (conforms 3 (fun b => if Nat.eqb b 1 then Some 0 else None)) bh_nonvacuous = true /\
+  blob_guard_F5 (accepts O_rej3) bh_nonvacuous = false /\ blob_guard_F6 bh_nonvacuous = false /\
+  flat_map (fun st => filter p_ok (t_calls st)) (blob_trace O_rej3 3 true bh_nonvacuous) =
+  [ {| p_kind := KCreated; p_src := bkey 0 0; p_cid := Some 1; p_ok := true |};
+    {| p_kind := KCreated; p_src := bkey 0 1; p_cid := Some 2; p_ok := true |};
+    {| p_kind := KUpdated; p_src := bkey 0 1; p_cid := Some 4; p_ok := true |};
+    {| p_kind := KCreated; p_src := bkey 0 2; p_cid := Some 2; p_ok := true |};
+    {| p_kind := KDeleted; p_src := bkey 0 0; p_cid := None; p_ok := true |};
+    {| p_kind := KDeleted; p_src := bkey 0 2; p_cid := None; p_ok := true |};
+    {| p_kind := KDeleted; p_src := bkey 0 1; p_cid := None; p_ok := true |};
+    {| p_kind := KCreated; p_src := bkey 0 1; p_cid := Some 4; p_ok := true |};
+    {| p_kind := KCreated; p_src := bkey 1 0; p_cid := Some 5; p_ok := true |};
+    {| p_kind := KDeleted; p_src := bkey 1 0; p_cid := None; p_ok := true |} ].
+Proof. vm_compute. splits; reflexivity. Qed.
